@@ -733,6 +733,133 @@ func c12AsyncDatagram(w *core.W, j int) {
 	w.NontrivialStr("async-datagram", fmt.Sprint(j))
 }
 
+// c12TsigStatusPerRequest: what a handler is told about the signature belongs to the request it was
+// handed, not to an earlier one on the same connection: unsigned, signed with the wrong secret, unsigned,
+// signed correctly, unsigned - pipelined on one stream connection and one after the other.
+func c12TsigStatusPerRequest(w *core.W, j int) {
+	type seen struct {
+		hasTsig bool
+		status  string
+	}
+	var mu sync.Mutex
+	got := map[uint16]seen{}
+	h := dns.HandlerFunc(func(rw dns.ResponseWriter, req *dns.Msg) {
+		st := "<nil>"
+		if e := rw.TsigStatus(); e != nil {
+			st = e.Error()
+		}
+		mu.Lock()
+		got[req.Id] = seen{req.IsTsig() != nil, st}
+		mu.Unlock()
+		r := new(dns.Msg)
+		r.SetReply(req)
+		rw.WriteMsg(r)
+	})
+	ln := netsim.NewListener()
+	started := make(chan struct{})
+	srv := &dns.Server{Listener: ln, Handler: h, ReadTimeout: time.Hour, IdleTimeout: func() time.Duration { return time.Hour }, TsigSecret: c12Secrets, NotifyStartedFunc: func() { close(started) }}
+	serveErr := make(chan error, 1)
+	go func() { serveErr <- srv.ActivateAndServe() }()
+	select {
+	case <-started:
+	case <-time.After(c12Watch):
+		w.Inconclusive("tsig-status-server-did-not-start")
+		return
+	}
+	defer func() { srv.Shutdown(); <-serveErr }()
+	cl, err := ln.Dial()
+	if err != nil {
+		return
+	}
+	defer cl.Close()
+	wrong := map[string]string{"crosstalk-key.": base64.StdEncoding.EncodeToString([]byte("not the secret the server holds"))}
+	kinds := []string{"unsigned", "wrong-secret", "unsigned", "signed", "unsigned", "wrong-secret", "wrong-secret", "unsigned"}
+	want := map[uint16]string{}
+	var frames [][]byte
+	for k, kind := range kinds {
+		m := new(dns.Msg)
+		m.SetQuestion(fmt.Sprintf("status%d-%d.example.", j, k), dns.TypeA)
+		m.Id = uint16(0x700 + j*16 + k)
+		var b []byte
+		var perr error
+		switch kind {
+		case "unsigned":
+			b, perr = m.Pack()
+		default:
+			m.SetTsig("crosstalk-key.", dns.HmacSHA256, 300, time.Now().Unix())
+			sec := c12Secrets["crosstalk-key."]
+			if kind == "wrong-secret" {
+				sec = wrong["crosstalk-key."]
+			}
+			b, _, perr = dns.TsigGenerate(m, sec, "", false)
+		}
+		if perr != nil {
+			return
+		}
+		frames = append(frames, frame(b))
+		want[m.Id] = kind
+	}
+	pipelined := j%2 == 0
+	read := func() bool {
+		cl.SetReadDeadline(time.Now().Add(c12Watch))
+		var l [2]byte
+		if _, err := io.ReadFull(cl, l[:]); err != nil {
+			return false
+		}
+		_, err := io.ReadFull(cl, make([]byte, binary.BigEndian.Uint16(l[:])))
+		return err == nil
+	}
+	if pipelined {
+		var all []byte
+		for _, f := range frames {
+			all = append(all, f...)
+		}
+		cl.Write(all)
+		for range frames {
+			if !read() {
+				break
+			}
+		}
+	} else {
+		for _, f := range frames {
+			cl.Write(f)
+			if !read() {
+				break
+			}
+		}
+	}
+	w.Eval(1)
+	mu.Lock()
+	defer mu.Unlock()
+	for id, kind := range want {
+		g, ok := got[id]
+		if !ok {
+			w.Count("tsig_status_requests_not_handled", 1)
+			continue
+		}
+		w.Count("tsig_status_requests", 1)
+		bad := ""
+		switch kind {
+		case "unsigned":
+			if g.hasTsig || g.status != "<nil>" {
+				bad = "an unsigned request"
+			}
+		case "signed":
+			if !g.hasTsig || g.status != "<nil>" {
+				bad = "a correctly signed request"
+			}
+		case "wrong-secret":
+			if !g.hasTsig || g.status == "<nil>" {
+				bad = "a request signed with another secret"
+			}
+		}
+		if bad != "" {
+			w.Violation("C12/handler-saw-bad-tsig-status/per-request/"+kind, fmt.Sprintf("%s (request %d of %v on one stream connection, pipelined=%v) reached its handler with a TSIG record: %v, TsigStatus %s", bad, int(id)-0x700-j*16, kinds, pipelined, g.hasTsig, g.status), nil)
+		}
+	}
+	w.NontrivialStr("tsig-status-per-request", fmt.Sprint(j))
+}
+
 // c12ClientDatagramSizes: a datagram reply of exactly the size the client said it takes - by an OPT record
 // in the query, by Client.UDPSize, by Conn.UDPSize, or by saying nothing (512) - reaches the caller intact,
 // and so does the one that is an octet shorter; the exchange that follows on the same Conn is not disturbed.
@@ -1856,6 +1983,7 @@ func init() {
 		section{"server-datagram-sizes", tiered(6, 100), c12ServerDatagramSizes},
 		section{"client-datagram-sizes", tiered(24, 600), c12ClientDatagramSizes},
 		section{"async-datagram-handlers", tiered(6, 120), c12AsyncDatagram},
+		section{"tsig-status-per-request", tiered(6, 120), c12TsigStatusPerRequest},
 	)
 	core.Register(&core.Monitor{
 		ID: "C12", Level: "fault_enumeration", Plan: plan, Run: run, Race: true, Terminates: true, MaxParallel: 8,
